@@ -46,9 +46,13 @@ def Record.toLoc (r : Record) : Loc :=
     | .atom (.bool b) => .int (if b then 1 else 0)
     | .atom (.str s) => .str s
     | _ => .none
+  -- `str(chromosome)`: a `bool` prints as `True` / `False`
+  let chrOf : PyVal → KV
+    | .atom (.bool b) => .str (if b then "True".toList else "False".toList)
+    | v => kvOf v
   match get "Chromosome", get "Start_Position", get "End_Position" with
   | some c, some s, some e =>
-    { hasCoords := true, chr := kvOf c, start := kvOf s, stop := kvOf e,
+    { hasCoords := true, chr := chrOf c, start := kvOf s, stop := kvOf e,
       tumor := ((get "Tumor_Sample_Barcode").map kvOf).getD .none,
       normal := ((get "Matched_Norm_Sample_Barcode").map kvOf).getD .none }
   | _, _, _ => { hasCoords := false }
